@@ -27,6 +27,7 @@
 -/
 import LLFreeV.Proofs.UpperInit
 import LLFreeV.Proofs.OwnLowerThreads
+import LLFreeV.Proofs.TreeStats
 namespace LLFree.C04
 open LLFree Prog
 
@@ -122,6 +123,14 @@ theorem fast_counters_exact (c : Cfg) (H : Nat → Prop) (m : Mem) (inv : UpperI
   refine ⟨by omega, fun hn => ?_⟩
   have h2 := inv.counterEq i t ht hn
   omega
+
+/-- the fast view as a program: `tree_stats()` returns the sum of the tree counters plus the
+    counters of the present local reservations (each of which `fast_counters_exact` relates to
+    the allocation state tree by tree), without panic and without writing -/
+theorem tree_stats_total (c : Cfg) (H : Nat → Prop) (ok : CfgOk c) (m : Mem) (inv : UpperInv0 c H m) :
+    Runs m (treeStats c) (fun s m' => m = m' ∧
+      ∃ s0, runSolo (Trees.stats c) m = (m, .ok s0) ∧ s.freeFrames = s0.freeFrames + slotSum c m) :=
+  (treeStats_spec c m ok inv).mono (fun _ _ h => ⟨h.1, h.2.2.2⟩)
 
 /-- **Quiescent end of every interleaving (lower level)**: when all threads have finished their
     calls, every huge-entry counter is exactly the number of free frames of its bitfield. -/
